@@ -47,26 +47,26 @@ var wrongBools = []string{"maybe", "2", "TRUE%20", "tru", "-1"}
 var wrongDurations = []string{"5", "5x", "-5m", "1e9h", "9999999999h", "5m5", "m", "1.5.5s", "%2B5m"}
 
 var namedOdd = map[string][]string{
-	"filter": {"EQ(", "EQ(id", "EQ(id,)", "EQ()", ")", "AND()", "NOT", "EQ(id,1", "EQ(id,1))", "EQ(nosuch,1)", "CONTAINS(name)", "EQ(id,1),", ",EQ(id,1)", "EQ(id,%22one)", "EQ(id,'one)", "NOT()", "AND(EQ(id,1))", "OR(EQ(id,1),)", "EQ(id,1)EQ(id,2)", "eq(id,1)", "EQ%20(id,1)", "HAS(name,)", "EQ(,)", "(((", "EQ(id,-)", "EQ(id,1.2.3)", "EQ(id,1e999)", mark("NOT(", 3000) + "EQ(id,1)" + mark(")", 3000)},
-	"sort":    {"~id", "-id", "id%20desc", "nosuch", ",", "~", "id,", ",id", "id,id", "~~id", "1", "id;drop"},
-	"columns": {"nosuch", "id,,name", "*", "count(*)", ",", "id,", "count(", "id%20as%20x", "_row_id_", "id,id"},
-	"user":    {"nosuchuser", adminName, "%2A", ""},
-	"id":      {"nosuchtx", someUUID + "x", "00000000-0000-0000-0000-000000000000", "not-a-uuid"},
-	"upsert":  {"nosuch", "id,name", ",", "id,", "_row_id_", "*"},
-	"class":   {"nosuch", "server,", ",", "server,,auth", "all", "SERVER", "-server"},
-	"msg":     {"*", "[", "\\", "server.[", "**", "?"},
-	"since":   {"yesterday", "2020-13-45", "0", "-1", "9999999999999", "2020-01-01T25:00:00Z", "12:00"},
-	"until":   {"tomorrow", "2020-13-45", "0", "1999-01-01"},
-	"tail":    {"-5", "0", "999999999"},
-	"session": {"-1", "0", "999999999"},
-	"keep":    {"-1", "0", "1", "999999999"},
-	"order-by": {"nosuch", ",", "size", "hits", "-name"},
-	"lang":     {"xx", "en-US", "*", "fr;q=1", "-"},
-	"entry":    {"nosuch", "@", "@nosuch", "user", "@user:"},
-	"method":   {"BREW", "get", ""},
-	"path":     {"/nosuch", "admin/users", "/", "//", "/admin/users/%7B%7Bname%7D%7D"},
-	"expires":  {"0s", "1ns", "87600h"},
-	"grace":    {"0s", "1ns", "-1s", "87600h"},
+	"filter":                {"EQ(", "EQ(id", "EQ(id,)", "EQ()", ")", "AND()", "NOT", "EQ(id,1", "EQ(id,1))", "EQ(nosuch,1)", "CONTAINS(name)", "EQ(id,1),", ",EQ(id,1)", "EQ(id,%22one)", "EQ(id,'one)", "NOT()", "AND(EQ(id,1))", "OR(EQ(id,1),)", "EQ(id,1)EQ(id,2)", "eq(id,1)", "EQ%20(id,1)", "HAS(name,)", "EQ(,)", "(((", "EQ(id,-)", "EQ(id,1.2.3)", "EQ(id,1e999)", mark("NOT(", 3000) + "EQ(id,1)" + mark(")", 3000)},
+	"sort":                  {"~id", "-id", "id%20desc", "nosuch", ",", "~", "id,", ",id", "id,id", "~~id", "1", "id;drop"},
+	"columns":               {"nosuch", "id,,name", "*", "count(*)", ",", "id,", "count(", "id%20as%20x", "_row_id_", "id,id"},
+	"user":                  {"nosuchuser", adminName, "%2A", ""},
+	"id":                    {"nosuchtx", someUUID + "x", "00000000-0000-0000-0000-000000000000", "not-a-uuid"},
+	"upsert":                {"nosuch", "id,name", ",", "id,", "_row_id_", "*"},
+	"class":                 {"nosuch", "server,", ",", "server,,auth", "all", "SERVER", "-server"},
+	"msg":                   {"*", "[", "\\", "server.[", "**", "?"},
+	"since":                 {"yesterday", "2020-13-45", "0", "-1", "9999999999999", "2020-01-01T25:00:00Z", "12:00"},
+	"until":                 {"tomorrow", "2020-13-45", "0", "1999-01-01"},
+	"tail":                  {"-5", "0", "999999999"},
+	"session":               {"-1", "0", "999999999"},
+	"keep":                  {"-1", "0", "1", "999999999"},
+	"order-by":              {"nosuch", ",", "size", "hits", "-name"},
+	"lang":                  {"xx", "en-US", "*", "fr;q=1", "-"},
+	"entry":                 {"nosuch", "@", "@nosuch", "user", "@user:"},
+	"method":                {"BREW", "get", ""},
+	"path":                  {"/nosuch", "admin/users", "/", "//", "/admin/users/%7B%7Bname%7D%7D"},
+	"expires":               {"0s", "1ns", "87600h"},
+	"grace":                 {"0s", "1ns", "-1s", "87600h"},
 	"redirect_uri":          {"https%3A%2F%2Fevil.test%2Fcb", "notaurl", "%3A%2F%2F", "https%3A%2F%2Fapp.verif.test%2Fcb%23frag", "javascript%3Aalert(1)"},
 	"response_type":         {"token", "code%20token", ""},
 	"client_id":             {"nosuchclient", "vpublic"},
